@@ -173,12 +173,15 @@ def cmdResolve (family mode zones cache script question expect impl : String) : 
   let zss? : Option (List ZoneSpec) := if zones = "-" then some [] else (zones.splitOn "^").mapM parseZoneSpec
   let script? : Option (List ScriptEntry) := if script = "-" then some [] else (script.splitOn "^").mapM parseScriptEntry
   -- optional prefix `S<k>:` = the desired size of the shared cache (default 512)
-  let (cacheSize, cache) : Nat × String :=
-    if cache.startsWith "S" then
-      match (cache.drop 1).toString.splitOn ":" with
-      | k :: rest => (k.toNat?.getD 512, ":".intercalate rest)
-      | _ => (512, cache)
-    else (512, cache)
+  -- and `T<s>:` = the clock is advanced by s seconds between loading the cache and the resolution
+  let strip (pfx : String) (dflt : Nat) (c : String) : Nat × String :=
+    if c.startsWith pfx then
+      match (c.drop 1).toString.splitOn ":" with
+      | k :: rest => (k.toNat?.getD dflt, ":".intercalate rest)
+      | _ => (dflt, c)
+    else (dflt, c)
+  let (cacheSize, cache) := strip "S" 512 cache
+  let (advanceS, cache) := strip "T" 0 cache
   match parseMode mode, zss?, parseRRs cache, script?, parseQuestion question with
   | some rmode, some zss, some cacheRRs, some script, some q =>
     match (zss.mapM buildZone).bind (fun zs => zs.foldl (fun acc z => acc.bind (·.insertMerge z)) (some Zones.empty)) with
@@ -186,7 +189,7 @@ def cmdResolve (family mode zones cache script question expect impl : String) : 
     | some allZones =>
       let t0 := 1000000000
       let cache0 := sharedInsertAll (PCache.new cacheSize) cacheRRs t0
-      let ctx : Ctx := { zones := allZones, cache := cache0, now := t0, stack := [] }
+      let ctx : Ctx := { zones := allZones, cache := cache0, now := t0 + advanceS * 1000000000, stack := [] }
       let oracle := oracleOf script
       -- model run
       let (res, log, elapsed, cacheAfter) : Except ResolutionError ResolvedRecord × List Exchange × Nat × PCache :=
@@ -231,6 +234,36 @@ def cmdResolve (family mode zones cache script question expect impl : String) : 
                   | some m => if e.delayMs ≥ 5000 then [] else m.answers ++ m.authority ++ m.additional
                   | none => [])
             let provInTime := io.rrs.all (fun rr => knownInTime.any (fun k => k.rtype == rr.rtype && k.fields == rr.fields))
+            -- C05 through the resolver: a cached record whose TTL had run out when the question came is
+            -- no source of an answer record (owner, type and data found only there)
+            let liveSources : List RR :=
+              (allZones.zones.flatMap (fun kv => zoneAllRRs kv.2 ++ (kv.2.allWildcardRecords.flatMap (fun (n, zrs) => zrs.map (·.toRR n)))))
+              ++ cacheRRs.filter (fun r => r.ttl > advanceS)
+              ++ script.flatMap (fun e => match e.raw with
+                  | some m => m.answers ++ m.authority ++ m.additional
+                  | none => [])
+            -- C06 through the resolver: (1) a reply that does not match its request (other ID, not a
+            -- response, other opcode, TC set, rcode other than NOERROR/NXDOMAIN, other question) is discarded
+            -- as a whole: no answer record may have such replies as its only source; (2) the stranger named
+            -- by an upward referral (fault "evil", 203.0.113.66) is never contacted
+            let matching (se : ScriptEntry) : Bool := match se.reply with
+              | some m => m.header.id == 0 && m.header.isResponse && m.header.opcode == 0 && !m.header.isTruncated
+                  && (m.header.rcode == 0 || m.header.rcode == 3)
+                  && m.questions == [{ name := se.qname, qtype := se.qtype, qclass := 1 }]
+              | none => false
+            let sourcesOk : List RR :=
+              (allZones.zones.flatMap (fun kv => zoneAllRRs kv.2 ++ (kv.2.allWildcardRecords.flatMap (fun (n, zrs) => zrs.map (·.toRR n)))))
+              ++ cacheRRs ++ (script.filter matching).flatMap (fun e => match e.raw with
+                  | some m => m.answers ++ m.authority ++ m.additional
+                  | none => [])
+            let c06 : List String :=
+              (if okRes && provOk && !io.rrs.all (fun rr => sourcesOk.any (fun k => k.rtype == rr.rtype && k.fields == rr.fields))
+               then ["fail:C06:record-from-a-discarded-reply"] else [])
+              ++ (if io.logFull.any (fun e => e.1 == "4:3405803842")
+                  then ["fail:C06:followed-a-referral-not-deeper-than-the-delegation-in-use"] else [])
+            let c05 : List String :=
+              if advanceS > 0 && okRes && !io.rrs.all (fun rr => liveSources.any (fun k => k.rtype == rr.rtype && k.fields == rr.fields))
+              then ["fail:C05:expired-cached-record-used-by-the-resolver"] else []
             let c08 := (if io.elapsed > 60000 then ["fail:C08:over-60s-budget"] else [])
               ++ (if okRes && !provOk then ["fail:C08:record-from-nowhere"] else [])
               ++ (if io.kind != "panic" && io.kind != "hang" && io.logFull.length == io.log.length && io.elapsed > timeBound
@@ -269,7 +302,7 @@ def cmdResolve (family mode zones cache script question expect impl : String) : 
                       let isV4 := e.1.startsWith "4:"
                       if isV4 == wantV4 then false
                       else
-                        let known := zoneRRs ++ (io.logFull.take i).flatMap replyOf
+                        let known := zoneRRs ++ cacheRRs ++ (io.logFull.take i).flatMap replyOf
                         let hosts := known.filterMap (fun rr => if addrText rr == some e.1 then some rr.name else none)
                         hosts.any (fun h => known.any (fun rr => rr.name == h &&
                           (if wantV4 then rr.rtype == RT_A else rr.rtype == RT_AAAA))))
@@ -376,7 +409,7 @@ def cmdResolve (family mode zones cache script question expect impl : String) : 
                       else if !soaOk then ["fail:C07:soa"]
                       else []
                   | _ => ["fail:C07:bad-expect"]
-            c08 ++ c18 ++ c18p ++ c10 ++ c01 ++ c01d ++ c07
+            c08 ++ c05 ++ c06 ++ c18 ++ c18p ++ c10 ++ c01 ++ c01d ++ c07
       let oracle := if verdicts.isEmpty then "ok" else ",".intercalate verdicts
       -- with several nameservers per zone the referral host order comes out of a HashSet:
       -- the model is not authoritative there, only the specification oracles judge the case
